@@ -93,6 +93,8 @@ def main(args):
             "requests_served_from_a_warm_variator_cache": total.get("warm_cache_hits", 0),
             "individual_model_claims_checked": total.get("model_claims", 0),
         },
+        "distinct_interleavings": len(total.get("interleavings", ())),
+        "interleaving_measure": "distinct digests of (materialisation, rounding, [(request kind, edit kind, fault?, outcome class)])",
         "components": COMPONENTS, "exhaustive": False,
     }
     driver.write_evidence(PROP, tier, seed, LEVEL, cov, wall, confirmed, ASSUMPTIONS)
